@@ -92,6 +92,17 @@ def ctxStep (st : C17.St) (op : Json) : C17.St × String :=
     let disciplined := body.all fun s => s.target != some 0
     ({ st with cells := evaluate st.cells s bound (jnat op "fin") body },
      if disciplined then "ok" else "undisciplined")
+  else if jstr op "o" == "icall" then
+    -- `YaqlInterface(hs[h], engine)(text, *args, **kwargs)`: private child, parameters, evaluation, child dropped
+    let s := st.hs[jnat op "h"]?.getD default
+    let params := (jarr op "params").map fun p =>
+      match asArr p with
+      | [n, v] => ((asStr n).toList, (match v with | .null => (none : Val) | _ => some (asInt v)))
+      | _ => ([], none)
+    let body := (jarr op "steps").map stepOfJson
+    let disciplined := body.all fun s => s.target != some 0
+    ({ st with cells := interfaceCall st.cells s ⟨params, jnat op "fin", body⟩ },
+     if disciplined then "ok" else "undisciplined")
   else C17.step st op
 
 def ctx (req : Json) : Json :=
